@@ -526,6 +526,7 @@ func (e *Engine) inlineBody(st *State, ci *callInfo, recv *ast.FieldList, ft *as
 						v = ci.args[i]
 					} else {
 						v = e.newVal(KAlloc, obj.Type(), n.Pos())
+						v.Path = "variadic" // the pack of a variadic call: its length is the number of arguments
 						if i < len(ci.args) {
 							v.Elems = ci.args[i:]
 						}
@@ -578,6 +579,9 @@ func (e *Engine) invokeBuiltin(st *State, ci *callInfo) []multiOut {
 			if _, isMap := mt.Underlying().(*types.Map); isMap {
 				e.emit(st, &Event{Kind: EvMapLen, Pos: pos, Path: e.mapPath(ci.call.Args[0], arg), Recv: arg})
 			}
+		}
+		if ci.builtin == "len" && arg.Kind == KAlloc && arg.Path == "variadic" {
+			return []multiOut{{st, []*Val{e.IntConst(int64(len(arg.Elems)))}}}
 		}
 		key := fmt.Sprintf("len|%d", arg.ID)
 		v, ok := e.pure[key]
